@@ -173,6 +173,12 @@ def render_stmt(s):
         return "%s && %s" % (rexpr(s[1]), blk_tail(s[2], s[3]))
     if k == "or":
         return "%s || %s" % (rexpr(s[1]), blk_tail(s[2], s[3]))
+    if k == "arr":
+        return "[" + ", ".join(rexpr(x) for x in s[1]) + "]"
+    if k == "assign":
+        return "%s = %s" % (s[1], rexpr(s[2]))
+    if k == "passign":
+        return "private %s = %s" % (s[1], rexpr(s[2]))
     if k == "raw":
         return s[1]
     raise ValueError("render: %r" % (s,))
@@ -398,6 +404,23 @@ class Interp:
             if not isinstance(r, bool):
                 raise ScriptError("lazy operand not boolean")
             return r
+        if k == "arr":
+            return [self.expr(x, env) for x in s[1]]
+        if k in ("assign", "passign"):
+            v = self.expr(s[2], env)
+            name = s[1]
+            target = env
+            if k == "assign":
+                e = env
+                while e is not None and name not in e.vars:
+                    e = e.parent
+                if e is not None:
+                    target = e
+            if v is None:
+                target.vars.pop(name, None) if name in target.vars else None
+            else:
+                target.vars[name] = v
+            return None
         raise ValueError("interp: %r" % (s,))
 
     @staticmethod
